@@ -100,6 +100,18 @@ def enabled (drains : Bool) (s : Sys) : List Step := allSteps.filter (fun t => (
 def measure (s : Sys) : Nat :=
   2 * s.pending + s.fill + (if s.r == .holding then 1 else 0) + (if s.c == .waiting then 1 else 0)
 
+/-- run a maximal schedule (first enabled step each time): the measure bounds it; `blocked` iff no
+step is enabled before the closer holds the lock -/
+def closeRun (drains : Bool) : Nat → Sys → String
+  | 0, _ => "blocked"
+  | fuel + 1, s =>
+    if s.c == .locked then "close=ok"
+    else match enabled drains s with
+      | [] => "blocked"
+      | t :: _ => match step drains s t with
+        | some s' => closeRun drains fuel s'
+        | none => "blocked"
+
 /-! ### driver: predicted answers of the scenario scripts of go/cmd/harness/c13.go -/
 
 def showAlts (xs : List String) : String := joinSep "|" xs
@@ -152,19 +164,16 @@ def run (args : List String) : String :=
     | some p, some c =>
       -- the abandoned response: the reader delivers until the queue is full
       let s0 : Sys := { cap := c, fill := min p c, pending := p - min p c, r := .holding, c := .waiting }
-      -- run any maximal schedule: the measure bounds it; blocked iff no step is enabled before the lock
-      let rec go (fuel : Nat) (s : Sys) : String :=
-        match fuel with
-        | 0 => "blocked"
-        | fuel + 1 =>
-          if s.c == .locked then "close=ok"
-          else match enabled closeDrainsWhileLocking s with
-            | [] => "blocked"
-            | t :: _ => match step closeDrainsWhileLocking s t with
-              | some s' => go fuel s'
-              | none => "blocked"
-      go (measure s0 + 1) s0
+      closeRun closeDrainsWhileLocking (measure s0 + 1) s0
     | _, _ => "bad-op"
+  | ["close-errors", _, n] =>
+    match n.toNat? with
+    | some n =>
+      -- the error queue holds 10; the reader blocks on the 11th while holding the read lock —
+      -- the same protocol as for packages, with capacity 10
+      let s0 : Sys := { cap := 10, fill := min n 10, pending := (if n > 10 then 1 else 0), r := .holding, c := .waiting }
+      closeRun closeDrainsWhileLocking (measure s0 + 1) s0
+    | none => "bad-op"
   | ["reader-exit", _] => if readerErrSendsGuarded then "connclose=ok reader=ended" else "connclose=ok reader=ended|connclose=ok reader=alive"
   | _ => "bad-op"
 
